@@ -133,6 +133,8 @@
 ; is allocated at or above the watermark, plain containers implement themselves.
 (define-fun wf ((h Heap)) Bool
   (and (< 0 (next h))
+       (= (select (MCard h) 0) 0)   ; the nil map is empty
+       (forall ((k Str)) (! (not (select (select (MDom h) 0) k)) :pattern ((select (select (MDom h) 0) k))))
        (forall ((r Int)) (! (=> (= (select (Kind h) r) KLIST) (invL h r)) :pattern ((select (Kind h) r))))
        (forall ((r Int)) (! (=> (= (select (Kind h) r) KOBJ) (invO h r)) :pattern ((select (Kind h) r))))
        (forall ((r Int)) (! (=> (>= r (next h)) (= (select (Kind h) r) 0)) :pattern ((select (Kind h) r))))
